@@ -10,35 +10,37 @@ open SST SST.FS SST.DBM SST.Proofs.FS
 
 /-- the calls of `Open`, run to the end, leave exactly the disk the function `recover` computes -/
 theorem recover_events_sound (d : Disk) (h : DiskOk d) (o : Opts) (d' : Disk) (s : State)
-    (hr : recover d o = .ok (d', s)) : applyEvs d (recoverEvents d) = d' :=
-  recover_events d h o d' s hr
+    (hr : recover d o = .ok (d', s)) (junks : List Layer) : applyEvs d (recoverEvents d junks) = d' :=
+  recover_events d h o d' s hr junks
 
 /-- MAIN THEOREM — for EVERY well-formed disk (every crash image of C02 is one) and EVERY number `m` of calls
 after which the recovery is killed: the disk left behind is again well-formed, a later `Open` succeeds on it and
-serves exactly the content the uninterrupted recovery serves.  The unlink order inside a `RemoveAll` of a table
+serves exactly the content the uninterrupted recovery serves (`junks`: whatever the table written by the recovery
+flush is seen to load as before its metadata is written).  The unlink order inside a `RemoveAll` of a table
 directory does not matter: the abstract states complete → part true → part false → gone that `recoverEvents`
 visits cover every order (an order that removes the metadata first skips the second state), and in each of them
 the table is still listed by the flagged compaction (deleted again) or has no metadata (discarded).  "Same
 outcome" is the same CONTENT; the table layout may differ (a second recovery may flush the remaining WAL files
 into one more table). -/
-theorem recover_idempotent_under_crash (d : Disk) (h : DiskOk d) (o o' : Opts) (m : Nat) :
-    let dm := applyEvs d ((recoverEvents d).take m)
+theorem recover_idempotent_under_crash (d : Disk) (h : DiskOk d) (o o' : Opts) (m : Nat) (junks : List Layer) :
+    let dm := applyEvs d ((recoverEvents d junks).take m)
     DiskOk dm ∧ ∃ d1 s1 d2 s2, recover d o = .ok (d1, s1) ∧ recover dm o' = .ok (d2, s2) ∧ abs s2 = abs s1 := by
   intro dm
-  obtain ⟨h1, h2⟩ := recover_prefix d h m
+  obtain ⟨h1, h2⟩ := recover_prefix d h m junks
   obtain ⟨d1, s1, hr1⟩ := recover_ok d h o
   obtain ⟨d2, s2, hr2⟩ := recover_ok dm h1 o'
   refine ⟨h1, d1, s1, d2, s2, hr1, hr2, ?_⟩
   rw [recover_abs d o d1 s1 hr1, recover_abs dm o' d2 s2 hr2]
   exact h2
 
-/-- the disk after a sequence of interrupted recovery attempts (attempt i killed after `ms[i]` calls) -/
-def interrupted : Disk → List Nat → Disk
+/-- the disk after a sequence of interrupted recovery attempts (attempt i killed after `ms[i].1` calls; `ms[i].2` =
+what the table written by its recovery flush is seen to load as before the metadata is written) -/
+def interrupted : Disk → List (Nat × List Layer) → Disk
   | d, [] => d
-  | d, m :: ms => interrupted (applyEvs d ((recoverEvents d).take m)) ms
+  | d, m :: ms => interrupted (applyEvs d ((recoverEvents d m.2).take m.1)) ms
 
 /-- any number of interrupted attempts is equivalent to none -/
-theorem recover_after_interruptions (d : Disk) (h : DiskOk d) (ms : List Nat) (o o' : Opts) :
+theorem recover_after_interruptions (d : Disk) (h : DiskOk d) (ms : List (Nat × List Layer)) (o o' : Opts) :
     DiskOk (interrupted d ms) ∧
     ∃ d1 s1 d2 s2, recover d o = .ok (d1, s1) ∧ recover (interrupted d ms) o' = .ok (d2, s2) ∧ abs s2 = abs s1 := by
   have key : ∀ ms d, DiskOk d → DiskOk (interrupted d ms) ∧ logical (interrupted d ms) = logical d := by
@@ -47,7 +49,7 @@ theorem recover_after_interruptions (d : Disk) (h : DiskOk d) (ms : List Nat) (o
     | nil => intro d h; exact ⟨h, rfl⟩
     | cons m ms ih =>
       intro d h
-      obtain ⟨h1, h2⟩ := recover_prefix d h m
+      obtain ⟨h1, h2⟩ := recover_prefix d h m.1 m.2
       obtain ⟨h3, h4⟩ := ih _ h1
       exact ⟨h3, h4.trans h2⟩
   obtain ⟨h1, h2⟩ := key ms d h
